@@ -84,7 +84,7 @@ def run(ctx):
         ctx.hist['oracle-failure:' + f['signature']] -= 1
     for k, v in hist.items():
         ctx.count(k, v)
-    results += c06.run_cases(ctx, 'c01', ctx.n(10, 480), ctx.n(2, 4), n_tx=(5, 12), **KW)
+    results += c06.run_cases(ctx, 'c01', ctx.n(15, 480), ctx.n(2, 4), n_tx=(5, 12), **KW)
     for r in results:
         if r.case.get('describe'):
             ctx.count('transactions-checked-against-reportsDescribe', len(r.lines))
